@@ -145,6 +145,35 @@ PROPS["C12"] = dict(
     design="DESIGN.md §4 C12",
 )
 
+PROPS["C18"] = dict(
+    technique="static analysis: single-merge-point who-may-call + dominance of the spec check, for-all shape of the check, field coverage of Spec.__eq__, origin of the budget arguments, unit table / raise-path analysis of the size parser",
+    text=(
+        "Decides that plan graphs can be merged only in arrays_to_dag, where check_array_specs over the same "
+        "sequence dominates the merge, and that Plan._new / arrays_to_plan (hence every operation constructor, "
+        "compute, plan, visualize) go through it — so no present or future function can combine arrays with "
+        "different specs without bypassing these functions, which the who-may-call part forbids; that the "
+        "check is a whole-object for-all equality raising ValueError; that every Spec constructor parameter "
+        "takes part in __eq__; that allowed_mem/reserved_mem given to the primitives are exactly the checked "
+        "spec's; and that the size parser uses decimal SI exponents and raises on every other form."
+    ),
+    note="Does not decide exactness of float parsing for integers above 2**53 given as strings (arithmetic fact, noted in DESIGN.md).",
+    design="DESIGN.md §4 C18",
+)
+PROPS["C19"] = dict(
+    technique="static analysis: origin (def-use) of the spec argument at every library call of a creation function; single resolution point; who-may-read of storage/executor settings",
+    text=(
+        "Decides that every helper array an operation creates internally receives a spec originating from "
+        "an operand's .spec, the function's own spec parameter or check_array_specs(...) — the condition "
+        "under which 'default' and 'explicit but equal' configurations accept the same expressions — that a "
+        "missing spec is resolved only through spec_from_config(config), and (thorough tier) that "
+        "work_dir / store / compressor / executor settings are only forwarded to storage construction and "
+        "never branch an operation builder. Two call sites violated the first rule and were repaired "
+        "(F2 searchsorted, F10 asarray)."
+    ),
+    note="Value equality under different configurations is not decided (needs execution); allowed_mem/reserved_mem may legitimately change acceptance.",
+    design="DESIGN.md §4 C19",
+)
+
 CLAIMED = sorted(PROPS)
 
 NOT_APPLICABLE = {
